@@ -127,11 +127,31 @@ def main(argv):
                 if not recurse:
                     del dn[:]
                 names += [os.path.relpath(os.path.join(dp, f), spec['dir_in']) for f in sorted(fn)]
+            import pickle
             for name in sorted(names):
                 p = os.path.join(spec['dir_in'], name)
-                # a fresh channel set per file: this run is the per-file ground truth
-                single = WriteLAS.convert_dir_or_file_to_las(p, os.path.join(spec['dir_out'], name), False, args[0], args[1], set(spec['channels']), args[3], args[4], wrapped_conversion)
-                res.update(single)
+                # the per-file ground truth: a fresh process (fork) and a fresh channel set for every file, so that no state
+                # carried over from another file's conversion can reach it
+                rfd, wfd = os.pipe()
+                pid = os.fork()
+                if pid == 0:
+                    try:
+                        os.close(rfd)
+                        single = WriteLAS.convert_dir_or_file_to_las(p, os.path.join(spec['dir_out'], name), False, args[0], args[1], set(spec['channels']), args[3], args[4], wrapped_conversion)
+                        payload = pickle.dumps(('ok', {k: tuple(v) for k, v in single.items()}))
+                    except BaseException as e:
+                        payload = pickle.dumps(('raised', '%s: %s' % (type(e).__name__, str(e)[:300])))
+                    with os.fdopen(wfd, 'wb') as wf:
+                        wf.write(payload)
+                    os._exit(0)
+                os.close(wfd)
+                with os.fdopen(rfd, 'rb') as rf:
+                    blob = rf.read()
+                os.waitpid(pid, 0)
+                status, value = pickle.loads(blob) if blob else ('raised', 'child died without a result')
+                if status != 'ok':
+                    raise RuntimeError('file-alone conversion of %s raised %s' % (name, value))
+                res.update({k: WriteLAS.LASWriteResult(*v) for k, v in value.items()})
         else:
             raise ValueError(spec['mode'])
         out['results'] = {_rel(k): _strip_result(v) for k, v in res.items()}
